@@ -4,6 +4,7 @@ package main
 // bodies with loops cut at their headers, calls replaced by contracts.
 
 import (
+	"os"
 	"sync"
 	"fmt"
 	"go/ast"
@@ -81,6 +82,7 @@ type Ctx struct {
 	paramIDs  map[string]bool
 	unfoldDepth int
 	frameActive bool
+	inUnrollHavoc bool
 	inGo        int
 	goAlloc     T
 	locMode     bool
@@ -101,6 +103,12 @@ type writeRec struct {
 
 func (c *Ctx) setHeap(st *State, name string, v T, key *T) {
 	st.heaps[name] = v
+	if c.fc != nil && c.fc.RowMajor && c.specMode == 0 && key != nil && strings.HasPrefix(name, "H.") && !c.inUnrollHavoc && os.Getenv("OWVC_NOUH") == "" {
+		// general-rank interface model: the slice x.Unroll() returns is either a copy or
+		// x's own storage (the interface does not say which), so after a write to that
+		// object the elements of x are unknown
+		c.unrollWriteHavoc(st, name, *key)
+	}
 	if c.frameActive && c.specMode == 0 && key != nil && c.inlineDepthOK() {
 		c.frameObligation(st, name, *key)
 	}
@@ -124,6 +132,52 @@ func (c *Ctx) setHeap(st *State, name string, v T, key *T) {
 }
 
 func (c *Ctx) inlineDepthOK() bool { return true }
+
+// unrollWriteHavoc: see setHeap. For every array parameter x of the function
+// under contract whose element sort matches the written heap,
+//   x.cells := ite(written object == x.g_unrollid, unknown, x.cells).
+func (c *Ctx) unrollWriteHavoc(st *State, heap string, key T) {
+	if c.topFrame == nil || c.topFrame.fn == nil || classifyKey(key.S, c.entryCut) == 1 {
+		return
+	}
+	k := Sort(strings.TrimPrefix(heap, "H."))
+	if i := strings.Index(string(k), "#"); i > 0 {
+		k = k[:i]
+	}
+	c.inUnrollHavoc = true
+	defer func() { c.inUnrollHavoc = false }()
+	for _, p := range c.topFrame.fn.Params {
+		x, ok := c.topFrame.vals[p].(IfaceV)
+		if !ok || !isNDIface(p.Type()) || ndElemSort(p.Type()) != k {
+			continue
+		}
+		c.declareFun("ghost.g_unrollid", []Sort{SInt}, SInt)
+		name := "ND.cells." + string(k)
+		c.unrollIDExists(app(SInt, "ghost.g_unrollid", x.Ref))
+		hit := eq(key, app(SInt, "ghost.g_unrollid", x.Ref))
+		assigned := !c.frameActive
+		if os.Getenv("OWVC_DEBUG") != "" {
+			fmt.Fprintf(os.Stderr, "unrollWriteHavoc %s key=%s frameActive=%v allowed=%v\n", heap, key.S, c.frameActive, c.frameAllowed)
+		}
+		for _, r := range c.frameAllowed[name] {
+			if r.S == x.Ref.S {
+				assigned = true
+			}
+		}
+		if !assigned {
+			// an array outside the assigns clause: the written object is not its unrolled storage
+			c.oblige(st, "frame", "assigns", nil, app(SBool, "not", hit), token.NoPos,
+				fmt.Sprintf("a write to %s[%s] does not reach the elements of %s (not in the assigns clause) through the slice its Unroll() returns", heap, key.S, p.Name()))
+			c.assume(st.reach, app(SBool, "not", hit))
+			continue
+		}
+		h := c.heap(st, name, heapSort(k))
+		nv := ite(hit, c.fresh("cells_after_unroll_write", arrSort(k)), c.sel(h, x.Ref))
+		ref := x.Ref
+		st.heaps[name] = c.def("Hc", c.sto(h, ref, nv))
+		c.writeLog = append(c.writeLog, writeRec{heap: name, key: &ref, sort: heapSort(k)})
+	}
+}
 
 // frameObligation: a write to an object that existed at entry must be covered
 // by the assigns clause (decided by SMT: the written object is fresh or is one
